@@ -15,6 +15,7 @@ let () =
     | "c16" -> C16.model_line, Some C16.judge_line
     | "qword" -> C15.model_line, None
     | "hdoc" -> C15.hdoc_line, None
+    | "gap" -> Gap.model_line, None
     | "ptok" -> Ptok.model_line, Some Ptok.judge_line
     | "dtok" -> Ptok.model_line, Some Ptok.dtok_judge
     | "xp" -> Xp.model_line, None
